@@ -65,6 +65,20 @@ DIRECTIONS = {
         "parsing of unusual NAMEs, the ISO request seeding of the network map, the Waveshare configuration packet; (5) anything in "
         "the interplay of TWO of the 20 areas (filters x fast packets, unit preferences x JSON, network map x reconnect, dump file x "
         "close, send x close, noise x reconnect). Avoid what the earlier notes below already did."),
+    9: ("Welcome directions this round: (1) a change that is wrong for ONE specific definition, field, lookup entry, PGN number, "
+        "address or byte value only (one of the 418 generated decoders / encoders edited by hand, one table entry, one special-cased "
+        "PGN such as 59904 / 60928 / 126996 / 129029, source address 254 or 255, priority 7, a payload byte 0xFF / 0x00 / 0x7F in one "
+        "position) while everything else keeps working; (2) behaviour that depends on the CONTENT of the previous message or frame, "
+        "not only on protocol state: de-duplication of identical consecutive frames or messages, delta / change detection, rate "
+        "limiting per PGN or per source, 'only log / only forward when changed', caches keyed by payload; (3) slow leaks and "
+        "accumulation: a task, file handle, list element or dict entry per message / per reconnect / per unknown PGN that is never "
+        "released and changes behaviour once there are many; (4) intermittent behaviour: dependence on set / dict iteration order, on "
+        "id() or hash values, on which of two ready tasks runs first, on time.time() / datetime.now() values, on random numbers; "
+        "(5) wrong behaviour only on the error path of an error path (an exception raised while handling another one, a finally "
+        "block that masks the original exception, a retry that retries the wrong thing, a log call that raises); (6) API contracts "
+        "of the async layer: awaiting something under a lock that the same task takes again, create_task without keeping a "
+        "reference, cancellation arriving inside a critical section, a callback that is itself calling send() / close() / connect() "
+        "on the client (re-entrancy). Avoid what the earlier notes below already did."),
 }
 
 
